@@ -173,6 +173,17 @@ def count_obligations(files):
     return n
 
 
+def count_discharged(files):
+    """statements of the files that did compile in this build (their .vo is at least as new as the source)"""
+    n = 0
+    for f in files:
+        p = os.path.join(COQ, f)
+        vo = p[:-2] + '.vo'
+        if os.path.exists(p) and os.path.exists(vo) and os.path.getmtime(vo) >= os.path.getmtime(p):
+            n += len(STMT_RE.findall(open(p).read()))
+    return n
+
+
 def first_error(log):
     m = re.search(r'File "\./([^"]+)", line (\d+)[^\n]*\n((?:.*\n){0,8})', log)
     if m:
@@ -265,6 +276,8 @@ def build_for(prop, cfg, log):
                             r['broken'].append(dict(kind='axioms', statement=n, message=a[:600]))
             if r['proof_ok']:
                 r['discharged'] = r['obligations']
+        if not r['proof_ok']:
+            r['discharged'] = count_discharged(r['files'])
     return r
 
 
